@@ -25,12 +25,35 @@ Theorem C33_overlay_eq_seq_state :
   forall (K V Out : Type) (keqb kltb : K -> K -> bool) (veqb : V -> V -> bool),
   (forall a b : K, keqb a b = true <-> a = b) ->
   (forall a b : V, veqb a b = true <-> a = b) ->
+  forall (A : Type) (acct_of : K -> A) (aeqb : A -> A -> bool),
+  (forall a b : A, aeqb a b = true <-> a = b) ->
   forall (pre : view K V) (b : block K V Out) (d r : list (tx K V Out)) (k : K),
   phases K V Out b = d ++ r ->
-  overlay K V keqb pre (bal_of_seq K V Out keqb kltb veqb pre b) (N.of_nat (length d)) k
+  overlay K V keqb A acct_of aeqb pre (bal_of_seq K V Out keqb kltb veqb pre b) (N.of_nat (length d)) k
   = state_after K V Out keqb d pre k.
 Proof. exact overlay_eq_seq_state. Qed.
 Print Assumptions C33_overlay_eq_seq_state.
+
+(* the index built by BlockAccessList.Lookup() serves EVERY change list of every
+   account, whatever its kind (balance, nonce, code, storage slot): on a list with
+   unique keys the lookup through the per-account index is searchLatest on the key's
+   own change list.  (C33_overlay_eq_seq_state and everything below go through this
+   index; an index that left out the accounts or the lists of one kind would not
+   satisfy this statement.) *)
+Theorem C33_lookup_serves_every_key :
+  forall (K V : Type) (keqb : K -> K -> bool),
+  (forall a b : K, keqb a b = true <-> a = b) ->
+  forall (A : Type) (acct_of : K -> A) (aeqb : A -> A -> bool),
+  (forall a b : A, aeqb a b = true <-> a = b) ->
+  forall (b : bal K V) (k : K) (limit : N),
+  NoDup (map fst (b_w K V b)) ->
+  bal_lookup K V keqb A acct_of aeqb b k limit
+  = match aget K keqb k (b_w K V b) with
+    | Some es => search_latest V es limit None
+    | None => None
+    end.
+Proof. exact (fun K V keqb => bal_lookup_nodup K V keqb keqb). Qed.
+Print Assumptions C33_lookup_serves_every_key.
 
 (* ApplyBlockAccessList(true list) installs the sequential post-state *)
 Theorem C33_apply_bal_state :
@@ -40,7 +63,10 @@ Theorem C33_apply_bal_state :
   forall (pre : view K V) (b : block K V Out) (k : K),
   apply_bal K V keqb pre (bal_of_seq K V Out keqb kltb veqb pre b) k
   = state_after K V Out keqb (phases K V Out b) pre k.
-Proof. exact apply_bal_state. Qed.
+Proof.
+  exact (fun K V Out keqb kltb veqb Hk Hv =>
+           apply_bal_state K V Out keqb kltb veqb Hk Hv unit (fun _ => tt)).
+Qed.
 Print Assumptions C33_apply_bal_state.
 
 (* bal_of_seq is the list the sequential processor returns *)
@@ -55,11 +81,12 @@ Print Assumptions C33_bal_of_seq_is_sequential.
 (* every interleaving h of Claim/Finish steps of any number of workers that runs to
    completion hands processParallel the same results *)
 Theorem C33_schedule_independent :
-  forall (K V Out : Type) (keqb : K -> K -> bool) (pre : view K V) (B : bal K V)
+  forall (K V Out : Type) (keqb : K -> K -> bool) (A : Type) (acct_of : K -> A)
+         (aeqb : A -> A -> bool) (pre : view K V) (B : bal K V)
          (ts : list (tx K V Out)) (h : list (nat * wlabel)) (s : pstate K V Out),
-  prun K V Out keqb pre B ts (p_init K V Out) h = Some s ->
+  prun K V Out keqb A acct_of aeqb pre B ts (p_init K V Out) h = Some s ->
   p_done K V Out (length ts) s = true ->
-  p_outcome K V Out ts s = wexec_all K V Out keqb pre B ts 0.
+  p_outcome K V Out ts s = wexec_all K V Out keqb A acct_of aeqb pre B ts 0.
 Proof. exact schedule_independent. Qed.
 Print Assumptions C33_schedule_independent.
 
@@ -72,15 +99,17 @@ Theorem C33_parallel_eq_sequential :
   forall (K V Out : Type) (keqb kltb : K -> K -> bool) (veqb : V -> V -> bool),
   (forall a b : K, keqb a b = true <-> a = b) ->
   (forall a b : V, veqb a b = true <-> a = b) ->
+  forall (A : Type) (acct_of : K -> A) (aeqb : A -> A -> bool),
+  (forall a b : A, aeqb a b = true <-> a = b) ->
   forall (pre : view K V) (b : block K V Out) (h : list (nat * wlabel)) (s : pstate K V Out),
   Forall (tx_ext K V Out) (phases K V Out b) ->
   Forall (gas_local K V Out) (b_txs K V Out b) ->
-  prun K V Out keqb pre (bal_of_seq K V Out keqb kltb veqb pre b) (b_txs K V Out b)
+  prun K V Out keqb A acct_of aeqb pre (bal_of_seq K V Out keqb kltb veqb pre b) (b_txs K V Out b)
        (p_init K V Out) h = Some s ->
   p_done K V Out (length (b_txs K V Out b)) s = true ->
   same_outcome K V Out
     (seq_process K V Out keqb veqb pre b)
-    (par_process K V Out keqb veqb pre b (bal_of_seq K V Out keqb kltb veqb pre b)
+    (par_process K V Out keqb veqb A acct_of aeqb pre b (bal_of_seq K V Out keqb kltb veqb pre b)
        (p_outcome K V Out (b_txs K V Out b) s)).
 Proof. exact parallel_eq_sequential. Qed.
 Print Assumptions C33_parallel_eq_sequential.
@@ -90,9 +119,11 @@ Theorem C33_rebuilt_fixpoint_unique :
   forall (K V Out : Type) (keqb kltb : K -> K -> bool) (veqb : V -> V -> bool),
   (forall a b : K, keqb a b = true <-> a = b) ->
   (forall a b : V, veqb a b = true <-> a = b) ->
+  forall (A : Type) (acct_of : K -> A) (aeqb : A -> A -> bool),
+  (forall a b : A, aeqb a b = true <-> a = b) ->
   forall (pre : view K V) (b : block K V Out) (B : bal K V),
   Forall (tx_ext K V Out) (phases K V Out b) ->
-  rebuilt K V Out keqb kltb veqb pre b B = B ->
+  rebuilt K V Out keqb kltb veqb A acct_of aeqb pre b B = B ->
   B = bal_of_seq K V Out keqb kltb veqb pre b.
 Proof. exact rebuilt_fixpoint_unique. Qed.
 Print Assumptions C33_rebuilt_fixpoint_unique.
@@ -105,6 +136,8 @@ Theorem C33_wrong_bal_rejected :
          (deqb : D -> D -> bool),
   (forall a b : K, keqb a b = true <-> a = b) ->
   (forall a b : V, veqb a b = true <-> a = b) ->
+  forall (A : Type) (acct_of : K -> A) (aeqb : A -> A -> bool),
+  (forall a b : A, aeqb a b = true <-> a = b) ->
   forall (Hbal : bal K V -> D) (Hrec : list (receipt Out) -> D) (Hreq : Out -> D)
          (Hroot : view K V -> D),
   (forall a b : D, deqb a b = true <-> a = b) ->
@@ -113,10 +146,10 @@ Theorem C33_wrong_bal_rejected :
          (h : list (nat * wlabel)) (s : pstate K V Out),
   Forall (tx_ext K V Out) (phases K V Out b) ->
   Forall (gas_local K V Out) (b_txs K V Out b) ->
-  prun K V Out keqb pre B (b_txs K V Out b) (p_init K V Out) h = Some s ->
+  prun K V Out keqb A acct_of aeqb pre B (b_txs K V Out b) (p_init K V Out) h = Some s ->
   p_done K V Out (length (b_txs K V Out b)) s = true ->
   B <> bal_of_seq K V Out keqb kltb veqb pre b ->
-  verdict_par K V Out D keqb kltb veqb deqb Hbal Hrec Hreq Hroot pre b hd B
+  verdict_par K V Out D keqb kltb veqb deqb A acct_of aeqb Hbal Hrec Hreq Hroot pre b hd B
     (p_outcome K V Out (b_txs K V Out b) s) <> 0%N.
 Proof. exact wrong_bal_rejected_sched. Qed.
 Print Assumptions C33_wrong_bal_rejected.
@@ -128,6 +161,8 @@ Theorem C33_verdict_par_true :
          (deqb : D -> D -> bool),
   (forall a b : K, keqb a b = true <-> a = b) ->
   (forall a b : V, veqb a b = true <-> a = b) ->
+  forall (A : Type) (acct_of : K -> A) (aeqb : A -> A -> bool),
+  (forall a b : A, aeqb a b = true <-> a = b) ->
   forall (Hbal : bal K V -> D) (Hrec : list (receipt Out) -> D) (Hreq : Out -> D)
          (Hroot : view K V -> D),
   (forall s s' : view K V, (forall k : K, s k = s' k) -> Hroot s = Hroot s') ->
@@ -135,10 +170,10 @@ Theorem C33_verdict_par_true :
          (h : list (nat * wlabel)) (s : pstate K V Out),
   Forall (tx_ext K V Out) (phases K V Out b) ->
   Forall (gas_local K V Out) (b_txs K V Out b) ->
-  prun K V Out keqb pre (bal_of_seq K V Out keqb kltb veqb pre b) (b_txs K V Out b)
+  prun K V Out keqb A acct_of aeqb pre (bal_of_seq K V Out keqb kltb veqb pre b) (b_txs K V Out b)
        (p_init K V Out) h = Some s ->
   p_done K V Out (length (b_txs K V Out b)) s = true ->
-  verdict_par K V Out D keqb kltb veqb deqb Hbal Hrec Hreq Hroot pre b hd
+  verdict_par K V Out D keqb kltb veqb deqb A acct_of aeqb Hbal Hrec Hreq Hroot pre b hd
     (bal_of_seq K V Out keqb kltb veqb pre b) (p_outcome K V Out (b_txs K V Out b) s)
   = if validate_body K V D keqb kltb deqb Hbal (n_of K V Out b + 1)%N hd
          (bal_of_seq K V Out keqb kltb veqb pre b)
